@@ -29,48 +29,70 @@ theorem SessInv.norm {s : Sess} (h : SessInv s) (hs : inSession s.st) : ∃ i, N
 
 /-! ### how an action may change the connections -/
 
-/-- the tracked connection, the phases and the `disconnected` flags are the same (connections may be appended) -/
+/-- what `abort_pending_connect` does to one connection: an attempt in flight is given up -/
+def Aborted (c c' : Conn) : Prop := c.phase = .connecting ∧ c'.phase = .closed ∧ c'.disconnected = c.disconnected
+
+/-- the tracked connection, the phases and the `disconnected` flags are the same (connections may be appended, an
+    attempt in flight may have been given up) -/
 structure Same (s s' : Sess) : Prop where
   proto : s'.proto = s.proto
   len : s.conns.length ≤ s'.conns.length
-  conn : ∀ j, (s'.conn j).phase = (s.conn j).phase ∧ (s'.conn j).disconnected = (s.conn j).disconnected
+  conn : ∀ j, ((s'.conn j).phase = (s.conn j).phase ∧ (s'.conn j).disconnected = (s.conn j).disconnected) ∨
+              Aborted (s.conn j) (s'.conn j)
 
 /-- as `Same`, except that connections may have been closed by us -/
 structure Ch (s s' : Sess) : Prop where
   proto : s'.proto = s.proto
   len : s.conns.length ≤ s'.conns.length
   conn : ∀ j, ((s'.conn j).phase = (s.conn j).phase ∧ (s'.conn j).disconnected = (s.conn j).disconnected) ∨
-              ((s'.conn j).phase = .closing ∧ (s'.conn j).disconnected = true)
+              ((s'.conn j).phase = .closing ∧ (s'.conn j).disconnected = true) ∨
+              Aborted (s.conn j) (s'.conn j)
 
-theorem Same.refl (s : Sess) : Same s s := ⟨rfl, Nat.le_refl _, fun _ => ⟨rfl, rfl⟩⟩
-theorem Same.trans {a b c : Sess} (h1 : Same a b) (h2 : Same b c) : Same a c :=
-  ⟨h2.proto.trans h1.proto, Nat.le_trans h1.len h2.len,
-   fun j => ⟨(h2.conn j).1.trans (h1.conn j).1, (h2.conn j).2.trans (h1.conn j).2⟩⟩
-theorem Same.ch {s s' : Sess} (h : Same s s') : Ch s s' := ⟨h.proto, h.len, fun j => Or.inl (h.conn j)⟩
-theorem Ch.refl (s : Sess) : Ch s s := (Same.refl s).ch
-theorem Ch.trans {a b c : Sess} (h1 : Ch a b) (h2 : Ch b c) : Ch a c := by
+theorem Same.refl (s : Sess) : Same s s := ⟨rfl, Nat.le_refl _, fun _ => Or.inl ⟨rfl, rfl⟩⟩
+theorem Same.trans {a b c : Sess} (h1 : Same a b) (h2 : Same b c) : Same a c := by
   refine ⟨h2.proto.trans h1.proto, Nat.le_trans h1.len h2.len, fun j => ?_⟩
   rcases h2.conn j with h | h
   · rcases h1.conn j with h' | h'
     · exact Or.inl ⟨h.1.trans h'.1, h.2.trans h'.2⟩
-    · exact Or.inr ⟨h.1.trans h'.1, h.2.trans h'.2⟩
-  · exact Or.inr h
+    · exact Or.inr ⟨h'.1, h.1.trans h'.2.1, h.2.trans h'.2.2⟩
+  · rcases h1.conn j with h' | h'
+    · exact Or.inr ⟨by rw [← h'.1]; exact h.1, h.2.1, h.2.2.trans h'.2⟩
+    · have := h.1; rw [h'.2.1] at this; cases this
+theorem Same.ch {s s' : Sess} (h : Same s s') : Ch s s' :=
+  ⟨h.proto, h.len, fun j => (h.conn j).elim Or.inl (fun x => Or.inr (Or.inr x))⟩
+theorem Ch.refl (s : Sess) : Ch s s := (Same.refl s).ch
+theorem Ch.trans {a b c : Sess} (h1 : Ch a b) (h2 : Ch b c) : Ch a c := by
+  refine ⟨h2.proto.trans h1.proto, Nat.le_trans h1.len h2.len, fun j => ?_⟩
+  rcases h2.conn j with h | h | h
+  · rcases h1.conn j with h' | h' | h'
+    · exact Or.inl ⟨h.1.trans h'.1, h.2.trans h'.2⟩
+    · exact Or.inr (Or.inl ⟨h.1.trans h'.1, h.2.trans h'.2⟩)
+    · exact Or.inr (Or.inr ⟨h'.1, h.1.trans h'.2.1, h.2.trans h'.2.2⟩)
+  · exact Or.inr (Or.inl h)
+  · rcases h1.conn j with h' | h' | h'
+    · exact Or.inr (Or.inr ⟨by rw [← h'.1]; exact h.1, h.2.1, h.2.2.trans h'.2⟩)
+    · have := h.1; rw [h'.1] at this; cases this
+    · have := h.1; rw [h'.2.1] at this; cases this
 
 theorem Same.of_eq {s s' : Sess} (hc : s'.conns = s.conns) (hp : s'.proto = s.proto) : Same s s' :=
-  ⟨hp, by rw [hc]; exact Nat.le_refl _, fun j => by simp [Sess.conn, hc]⟩
+  ⟨hp, by rw [hc]; exact Nat.le_refl _, fun j => Or.inl (by simp [Sess.conn, hc])⟩
 
 theorem DiscClosed.of_ch {s s' : Sess} (h : DiscClosed s) (c : Ch s s') : DiscClosed s' := by
   intro j hd
-  rcases c.conn j with hh | hh
+  rcases c.conn j with hh | hh | hh
   · rw [hh.1]; exact h j (hh.2 ▸ hd)
   · exact Or.inl hh.1
+  · exact Or.inr hh.2.1
 
 /-- rule 1: phases untouched and the state stays in (or leaves) the session states -/
 theorem SessInv.of_same {s s' : Sess} (h : SessInv s) (c : Same s s') (hst : inSession s'.st → inSession s.st) :
     SessInv s' := by
   refine ⟨fun hs => ?_, h.disc.of_ch c.ch⟩
   obtain ⟨i, hp, hl, hu⟩ := h.tracked (hst hs)
-  exact ⟨i, c.proto.trans hp, Nat.lt_of_lt_of_le hl c.len, (c.conn i).1.trans hu⟩
+  refine ⟨i, c.proto.trans hp, Nat.lt_of_lt_of_le hl c.len, ?_⟩
+  rcases c.conn i with hh | hh
+  · exact hh.1.trans hu
+  · have := hh.1; rw [hu] at this; cases this
 
 /-- rule 2: connections closed by us, and the state is outside the session states afterwards -/
 theorem SessInv.of_ch {s s' : Sess} (h : DiscClosed s) (c : Ch s s') (hst : ¬ inSession s'.st) : SessInv s' :=
@@ -110,8 +132,8 @@ theorem same_setConn (s : Sess) (i : Nat) (c : Conn) (hp : c.phase = (s.conn i).
     (hd : c.disconnected = (s.conn i).disconnected) : Same s (s.setConn i c) := by
   refine ⟨rfl, by simp, fun j => ?_⟩
   rw [conn_setConn]; split
-  · rename_i hh; rw [← hh.1]; exact ⟨hp, hd⟩
-  · exact ⟨rfl, rfl⟩
+  · rename_i hh; rw [← hh.1]; exact Or.inl ⟨hp, hd⟩
+  · exact Or.inl ⟨rfl, rfl⟩
 
 theorem same_bumpSent (s : Sess) (i : Nat) (f : Stats → Stats) : Same s (s.bumpSent i f) := same_setConn s i _ rfl rfl
 theorem same_bumpRecv (s : Sess) (i : Nat) (f : Stats → Stats) : Same s (s.bumpRecv i f) := same_setConn s i _ rfl rfl
@@ -161,14 +183,23 @@ theorem conn_append_default (s : Sess) (j : Nat) : ((s.withConns (s.conns ++ [({
         apply List.getElem?_eq_none; simp; omega
       simp [this]
 
+theorem same_abortPending (s : Sess) : Same s s.abortPending := by
+  refine ⟨by simp, by simp, fun j => ?_⟩
+  rcases phase_abortPending s j with h | ⟨h1, h2, _⟩
+  · exact Or.inl ⟨h, disconnected_abortPending s j⟩
+  · exact Or.inr ⟨h2, h1, disconnected_abortPending s j⟩
+
+theorem same_withPending (s : Sess) (v : Option Nat) : Same s (s.withPending v) := Same.of_eq rfl rfl
+
 theorem same_connectTcp (s : Sess) : Same s s.connectTcp := by
   unfold connectTcp; split
-  · refine Same.trans (b := s.withConns (s.conns ++ [({} : Conn)])) ⟨rfl, by simp [withConns], fun j => ?_⟩ (same_emit _ _)
-    rw [conn_append_default]; exact ⟨rfl, rfl⟩
-  · exact Same.refl s
+  · refine (same_abortPending s).trans (Same.trans (b := s.abortPending.withConns (s.abortPending.conns ++ [({} : Conn)]))
+      ⟨rfl, by simp [withConns], fun j => ?_⟩ ((same_emit _ _).trans (same_withPending _ _)))
+    rw [conn_append_default]; exact Or.inl ⟨rfl, rfl⟩
+  · exact same_abortPending s
 
 @[simp] theorem st_connectTcp (s : Sess) : s.connectTcp.st = s.st := by
-  unfold connectTcp; split <;> rfl
+  unfold connectTcp; split <;> simp [Sess.emit, withConns]
 
 theorem same_autoStart (s : Sess) (b : Bool) : Same s (s.autoStart b) := by
   unfold autoStart
@@ -242,7 +273,7 @@ theorem ch_closeOn (s : Sess) (i : Nat) : Ch s (s.closeOn i) := by
       refine ⟨rfl, by simp [setDisconnected], fun j => ?_⟩
       simp only [setDisconnected, conn_setConn]
       by_cases hj : i = j ∧ i < s.conns.length
-      · right; rw [if_pos hj]; exact ⟨hj.1 ▸ hph, rfl⟩
+      · right; left; rw [if_pos hj]; exact ⟨hj.1 ▸ hph, rfl⟩
       · left; simp [hj]
     · exact Ch.refl s
 
@@ -464,8 +495,8 @@ theorem inv_manualStop {s : Sess} (h : SessInv s) : SessInv s.manualStop := by
     split
     · exact same_sendNotification s _ _ _
     · exact Same.refl s
-  exact inv_emit (SessInv.of_ch h.disc (((((h0.trans (same_withTm _ _)).ch.trans (ch_closeConn _)).trans
-    (same_withRetryCounter _ _).ch).trans (same_withAllow _ _).ch).trans (same_setSt _ _).ch)
+  exact inv_emit (SessInv.of_ch h.disc ((((((h0.trans (same_withTm _ _)).ch.trans (ch_closeConn _)).trans
+    (same_withRetryCounter _ _).ch).trans (same_withAllow _ _).ch).trans (same_setSt _ _).ch).trans (same_abortPending _).ch)
     (by simp; exact not_inSession_idle)) _
 
 theorem disc_false_of_connecting {s : Sess} (h : DiscClosed s) {c : Nat} (hc : (s.conn c).phase = .connecting) :
@@ -491,7 +522,10 @@ theorem discClosed_setPhase {s : Sess} (h : DiscClosed s) (c : Nat) (p : Phase)
 /-- the invariant from an explicit tracked connection -/
 theorem SessInv.of_tracked {t r : Sess} {i : Nat} (hd : DiscClosed t) (c : Same t r) (hp : t.proto = some i)
     (hl : i < t.conns.length) (hu : (t.conn i).phase = .connected) : SessInv r :=
-  ⟨fun _ => ⟨i, c.proto.trans hp, Nat.lt_of_lt_of_le hl c.len, (c.conn i).1.trans hu⟩, hd.of_ch c.ch⟩
+  ⟨fun _ => ⟨i, c.proto.trans hp, Nat.lt_of_lt_of_le hl c.len, by
+      rcases c.conn i with hh | hh
+      · exact hh.1.trans hu
+      · have := hh.1; rw [hu] at this; cases this⟩, hd.of_ch c.ch⟩
 
 theorem same_connectionMade (t : Sess) : Same t t.connectionMade := by
   unfold connectionMade
@@ -516,10 +550,21 @@ theorem inv_connOk {s : Sess} (h : SessInv s) (c : Nat) (hlt : c < s.conns.lengt
   exact SessInv.of_tracked h1 ((((same_setSt _ _).trans (same_withEstab _ _)).trans (same_withBgpId _ _)).trans
     (same_connectionMade _)) rfl hl hu
 
-theorem inv_connFail {s : Sess} (h : SessInv s) (c : Nat) : SessInv (s.connFail c) := by
+theorem inv_connFail {s : Sess} (h : SessInv s) (c : Nat) (hph : (s.conn c).phase = .connecting) :
+    SessInv (s.connFail c) := by
   unfold connFail
-  exact SessInv.of_ch (discClosed_setPhase h.disc c _ (Or.inr (Or.inl rfl)))
-    ((same_emit _ _).ch.trans (ch_connectionFailed _)) (st_connectionFailed _)
+  split
+  · exact SessInv.of_ch (s := (s.withPending none).setPhase c .closed)
+      (discClosed_setPhase (s := s.withPending none) h.disc c _ (Or.inr (Or.inl rfl)))
+      ((same_emit _ _).ch.trans (ch_connectionFailed _)) (st_connectionFailed _)
+  · -- a connector the peering has given up: nothing but its phase changes, and it was not the tracked connection
+    refine ⟨fun hs => ?_, discClosed_setPhase h.disc c _ (Or.inr (Or.inl rfl))⟩
+    obtain ⟨i, hp, hl, hu⟩ := h.tracked hs
+    refine ⟨i, hp, by simpa [setPhase] using hl, ?_⟩
+    have hne : c ≠ i := by intro e; subst e; rw [hu] at hph; cases hph
+    simp only [setPhase, conn_setConn]
+    rw [if_neg (fun hh => hne hh.1)]
+    exact hu
 
 theorem inv_connLost {s : Sess} (h : SessInv s) (c : Nat) : SessInv (s.connLost c) := by
   have hd1 : DiscClosed (s.setPhase c .closed) := discClosed_setPhase h.disc c _ (Or.inr (Or.inl rfl))
@@ -602,7 +647,9 @@ theorem sessInv_step (U : Bool → Bytes → UpdClass) (w : World) (e : Ev) (hen
   | connOk c =>
     simp only [enabled, decide_eq_true_eq] at hen
     exact inv_connOk h0 c hen.1 hen.2
-  | connFail c => exact inv_connFail h0 c
+  | connFail c =>
+    simp only [enabled, Bool.and_eq_true, decide_eq_true_eq] at hen
+    exact inv_connFail h0 c hen.2
   | chunk c d => exact inv_dataReceived U h0 c _ d
   | lost c => exact inv_connLost h0 c
   | advance dt => exact h0.same_st (same_withNow _ _) rfl
